@@ -189,9 +189,15 @@ def target_of(fn: FuncInfo, e: ast.AST, depth: int = 0) -> str:
         if nm == 'list' and x.args and isinstance(x.args[0], ast.Call) and call_name(x.args[0]) == 'map' and len(x.args[0].args) == 2 and \
                 unparse(x.args[0].args[0]).endswith('get_user_object'):
             return f'users({target_of(fn, x.args[0].args[1], depth + 1)})'
+        if nm in ('list', 'tuple') and len(x.args) == 1 and isinstance(x.args[0], (ast.GeneratorExp, ast.ListComp)):
+            return target_of(fn, x.args[0], depth)
         if nm and nm[:1].isupper() and x.keywords and depth < 2:
             parts = [f'{k.arg}={target_of(fn, k.value, depth + 1)}' for k in x.keywords if k.arg not in ('timestamp', 'raw_message')]
             return f'{nm}({", ".join(parts)})'
+    if isinstance(x, (ast.ListComp, ast.GeneratorExp)) and len(x.generators) == 1 and not x.generators[0].ifs and isinstance(x.generators[0].target, ast.Name) and \
+            isinstance(x.elt, ast.Call) and call_name(x.elt) == 'get_user_object' and len(x.elt.args) == 1 and unparse(x.elt.args[0]) == x.generators[0].target.id:
+        # [get_user_object(n) for n in XS]  ==  list(map(get_user_object, XS))
+        return f'users({target_of(fn, x.generators[0].iter, depth + 1)})'
     if isinstance(x, ast.Attribute) and isinstance(x.value, (ast.Name, ast.Call)) and not (isinstance(x.value, ast.Name) and x.value.id in ('message', 'self', 'connection')):
         return f'{target_of(fn, x.value, depth + 1)}.{x.attr}'
     return s[:60]
@@ -249,13 +255,16 @@ def effects_of(eng: Engine, fn: FuncInfo) -> list[dict]:
         if isinstance(n, ast.Assign):
             for t in n.targets:
                 if isinstance(t, ast.Attribute) and not (isinstance(t.value, ast.Name) and t.value.id == 'self' and t.attr.startswith('_MESSAGE')):
-                    vc = value_class(fn, n.value)
-                    kind = 'SET'
-                    if vc == 'empty':
-                        kind = 'CLEAR'
-                    elif vc.startswith(('set:', 'list:', 'dict:', 'OrderedDict:', 'built:')) or vc.startswith('local:'):
-                        kind = 'REPLACE'
-                    out.append({'on': target_of(fn, t.value), 'field': t.attr, 'kind': kind, 'value': vc, 'if': conds(n), 'each': loops(n)})
+                    # `x.f = A if c else B` is `if c: x.f = A else: x.f = B`: one effect per arm
+                    for arm_conds, leaf in ifexp_cases(n.value):
+                        vc = value_class(fn, leaf)
+                        kind = 'SET'
+                        if vc == 'empty':
+                            kind = 'CLEAR'
+                        elif vc.startswith(('set:', 'list:', 'dict:', 'OrderedDict:', 'built:')) or vc.startswith('local:'):
+                            kind = 'REPLACE'
+                        extra = [('' if pol else 'not ') + unparse(expand_c(fn, e, depth=3, ctx=n)) for e, pol in arm_conds]
+                        out.append({'on': target_of(fn, t.value), 'field': t.attr, 'kind': kind, 'value': vc, 'if': sorted(set(conds(n) + extra)), 'each': loops(n)})
                 elif isinstance(t, ast.Subscript) and isinstance(t.value, ast.Attribute):
                     out.append({'on': target_of(fn, t.value.value), 'field': t.value.attr, 'kind': 'ADD', 'value': value_class(fn, t.slice), 'if': conds(n),
                                 'each': loops(n)})
@@ -360,10 +369,15 @@ def run(eng: Engine, ck: Check):
         ck.ob('R-C19-EXHAUSTIVE', init, init.node, f'{cls.name} builds its message map from the decorated handlers', ok, '', construct=f'{cls.name} message map')
         omr = cls.methods.get('_on_message_received')
         evp = [p_ for p_ in omr.params if p_ != 'self'][0] if omr is not None else 'event'
-        disp = [x for x in calls_in(omr.node) if isinstance(x.func, ast.Subscript) and unparse(x.func.value) == 'self._MESSAGE_MAP'] if omr is not None else []
-        ok = omr is not None and len(disp) == 1 and len(disp[0].args) == 2 and \
-            unparse(expand_aliases(omr, disp[0].func.slice)) == f'{evp}.message.__class__' and unparse(expand_aliases(omr, disp[0].args[0])) == f'{evp}.message' and \
-            unparse(expand_aliases(omr, disp[0].args[1])) == f'{evp}.connection' and \
+        # the call whose callee is read from the map: self._MESSAGE_MAP[k](..) or h = self._MESSAGE_MAP.get(k); h(..)
+        disp = []
+        for x in (calls_in(omr.node) if omr is not None else []):
+            lk = lookup_in(expand_aliases(omr, x.func)) if not (isinstance(x.func, ast.Attribute) and x.func.attr == 'get') else None
+            if lk and unparse(lk[0]) == 'self._MESSAGE_MAP':
+                disp.append((x, lk[1]))
+        ok = omr is not None and len(disp) == 1 and len(disp[0][0].args) == 2 and \
+            unparse(expand_aliases(omr, disp[0][1])) in (f'{evp}.message.__class__', f'type({evp}.message)') and unparse(expand_aliases(omr, disp[0][0].args[0])) == f'{evp}.message' and \
+            unparse(expand_aliases(omr, disp[0][0].args[1])) == f'{evp}.connection' and \
             omr in eng.res.graph() and omr in eng.res.event_handlers.get('MessageReceivedEvent', [])
         ck.ob('R-C19-EXHAUSTIVE', omr or cls, (omr or cls).node, f'{cls.name} dispatches every received message through the map', bool(ok), '', construct=f'{cls.name} dispatch')
     ck.floor('R-C19-EXHAUSTIVE', len(pinned), 26)
